@@ -275,6 +275,10 @@ impl Check for C16 {
             return RunReport::default();
         }
         let n = sc.net.clients.len();
+        // the limiter as generated lets at least one connection per address through
+        if sc.net.cfg.limiter.is_some_and(|(_, size)| size == 0) {
+            return RunReport::default();
+        }
         if n == 0 || sc.net.cfg.use_start || sc.net.stop_at_ns.is_some() || sc.net.cap_ns < sc.net.clients[n - 1].connect_at_ns + secs(60) || sc.net.cfg.timeout_ns < secs(10) {
             return RunReport::default();
         }
